@@ -219,6 +219,35 @@ def r20_2(run):
                     run.ob(k0 + "|same-cells", same, "the scalar (.at) and the fallback (.loc) arm write the same cells", where)
                     run.ob(k0 + "|same-value", same and tkey(_cellnorm(bst[0].value)) == tkey(_cellnorm(hst[0].value)),
                            "both arms store the same value", where)
+    # the fallback arm handles several elements at once: what it reads with .loc[rows, col] is a pandas Series labelled with the rows
+    # of *that* table; before it is combined or written into another table (whose rows have other labels) it must be taken by
+    # position (.values / .to_numpy()) -- a Series would be aligned by label and land in the wrong rows
+    from ..arrnf import ANF as _A2, walk as _walk2
+    for cname in ("P2GControlMultiEnergy", "G2PControlMultiEnergy", "GasToGasConversion"):
+        ci = _cls(ix, cname)
+        f = ci.methods["control_step"]
+        r2 = _A2(ix, f, strip=False).run()
+        loc_reads, positional = {}, set()
+        terms = [((e.term if e.kind == "call" else getattr(e, "value", None)), e) for e in r2.events]
+        for t_ in r2.tries:             # what the fallback arm binds to names (no event of its own)
+            for h_ in t_["handlers"]:
+                for v_ in h_["env"].values():
+                    terms.append((v_, type("E", (), {"node": t_["node"]})()))
+        for t, e in terms:
+            if True:
+                if t is None or not isinstance(t, tuple):
+                    continue
+                for x in _walk2(t):
+                    if x[0] == "idx" and x[1][0] == "attr" and x[1][2] == "loc" and len(x[2]) == 2:
+                        loc_reads.setdefault(tkey(x), (x, e))
+                    if x[0] == "attr" and x[2] == "values" and x[1][0] == "idx" and x[1][1][0] == "attr" and x[1][1][2] == "loc":
+                        positional.add(tkey(x[1]))
+                    if x[0] == "call" and x[1][0] == "attr" and x[1][2] == "to_numpy" and x[1][1][0] == "idx":
+                        positional.add(tkey(x[1][1]))
+        bad = [v for k_, v in loc_reads.items() if k_ not in positional]
+        run.ob("%s.control_step|vector-reads-by-position" % cname, bool(loc_reads) and not bad,
+               "every .loc[rows, column] read of %s.control_step is taken by position (.values) before it is used" % cname,
+               run.where(f, bad[0][1].node) if bad else run.where(f, f.node), detail=tshow(bad[0][0])[:160] if bad else None)
     run.ob("arm-pairs-found", n_pairs >= 8, "try/except arm pairs found (%d)" % n_pairs, MC)
     run.floor(17)
 
